@@ -4,11 +4,6 @@ the nodes that pass a filter (`discard_closed`). -/
 
 namespace Geff.TrackMate
 
-def keys (g : Graph) : List Nat := g.nodes.map (·.1)
-
-/-- every edge joins nodes of the graph -/
-def Closed (g : Graph) : Prop := ∀ e ∈ g.edges, e.1.1 ∈ keys g ∧ e.1.2 ∈ keys g
-
 theorem removeNodes_filter (g : Graph) (P : Nat × Attrs → Bool) (hn : (keys g).Nodup) (hc : Closed g) :
     g.removeNodes ((g.nodes.filter P).map (·.1)) =
       { nodes := g.nodes.filter (fun p => !P p),
@@ -55,14 +50,6 @@ theorem removeNodes_filter_closed (g : Graph) (P : Nat × Attrs → Bool) (hn : 
   · intro e he
     simp only [List.mem_filter, Bool.and_eq_true, decide_eq_true_eq] at he
     exact he.2
-
-/-- one removal block: `if b: graph.remove_nodes_from([n for n in graph if P(n)])` -/
-def stage (g : Graph) (b : Bool) (P : Nat × Attrs → Bool) : Graph :=
-  if b then g.removeNodes ((g.nodes.filter P).map (·.1)) else g
-
-def restrictTo (g : Graph) (nodes : List (Nat × Attrs)) : Graph :=
-  { nodes := nodes,
-    edges := g.edges.filter (fun e => decide (e.1.1 ∈ nodes.map (·.1)) && decide (e.1.2 ∈ nodes.map (·.1))) }
 
 theorem stage_eq (g : Graph) (b : Bool) (P : Nat × Attrs → Bool) (hn : (keys g).Nodup) (hc : Closed g) :
     stage g b P = restrictTo g (g.nodes.filter (fun p => !(b && P p))) := by
